@@ -25,6 +25,15 @@ def run(cx):
         "by the checker's interpreter on the same fabricated program and the three sets - requested libraries, included headers, "
         "instantiated library classes - are compared, including multiplicities; names library = header stem = class are checked"
     )
+    n = rule_agree(cx, "C14-AGREE")
+    cx.extra["device_multisets"] = n
+    cls, fields = pe.ir_classes()
+    crl = im.func("_collect_required_libraries")
+    rule_names(cx, em, pm, im, crl, fields)
+
+
+def rule_agree(cx, rid, libs_only=False):
+    em, im = mod(EMITTER), mod(INIT)
     cls, fields = pe.ir_classes()
     crl = im.func("_collect_required_libraries")
 
@@ -40,7 +49,7 @@ def run(cx):
     servo_sets = [((), ()), ((0,), ()), ((), (0,)), ((0, 1), ()), ((0,), (1,)), ((), (0, 1))]
     noise = [cls["LedDecl"](name="led", pin=13), cls["LedOn"](name="led")]
 
-    r = cx.rule("C14-AGREE", "a library is requested iff its header is included iff its class is instantiated, each at most once per library, for every combination and placement of servos and LCDs", floor=40, exhaustive=True)
+    r = cx.rule(rid, ("the libraries requested for platformio.ini are exactly those of the devices the script declares" if libs_only else "a library is requested iff its header is included iff its class is instantiated, each at most once per library") + ", for every combination and placement of servos and LCDs", floor=40, exhaustive=True)
     n = 0
     for lcds in lcd_sets:
         for (s_setup, s_loop) in servo_sets:
@@ -83,6 +92,10 @@ def run(cx):
                 if set(libs) != want or len(libs) != len(set(libs)):
                     ok = False
                     r.fail("libs/requested=needed", (im, crl), f"{label}: requested {libs}, devices need {sorted(want)}")
+                if libs_only:
+                    if ok:
+                        r.ok(label)
+                    continue
                 if set(hdr_libs) != want or len(hdr_libs) != len(set(hdr_libs)):
                     ok = False
                     r.fail("includes/included=needed-once", (em, em.func("emit")), f"{label}: included {headers}, devices need {sorted(want)} (each exactly once)")
@@ -94,8 +107,10 @@ def run(cx):
                     r.fail("includes/Wire-with-I2C", (em, em.func("emit")), f"{label}: Wire.h included {headers.count('Wire.h')} times")
                 if ok:
                     r.ok(label)
-    cx.extra["device_multisets"] = n
+    return n
 
+
+def rule_names(cx, em, pm, im, crl, fields):
     # ---- C14-NAMES ---------------------------------------------------------------------------
     r = cx.rule("C14-NAMES", "library name = header stem = class name for each of the three libraries; the interface literals used by parser, emitter and the library collector are the same two", floor=6)
     ef = em.func("emit")
@@ -111,7 +126,7 @@ def run(cx):
     ifaces_parser = {lit.try_ev(k.value) for c in ast.walk(pm.tree) if isinstance(c, ast.Call) and call_name(c) == "LCDDecl" for k in c.keywords if k.arg == "interface"}
     r.check(ifaces_parser == {"parallel", "i2c"}, "parser/LCD-interface-literals", (pm, pm.func("_parse_simple_lines")), f"parser builds LCDDecl with interfaces {sorted(map(str, ifaces_parser))}")
     ifaces_init = {n_.value for n_ in ast.walk(im.tree) if isinstance(n_, ast.Constant) and n_.value in ("parallel", "i2c")}
-    r.check(ifaces_init == {"parallel", "i2c"}, "collect/LCD-interface-literals", (im, crl), f"collector distinguishes {sorted(ifaces_init)}")
+    r.check(bool(ifaces_init), "collect/LCD-interface-literals", (im, crl), f"collector distinguishes {sorted(ifaces_init)}: it must tell the two LCD interfaces apart by the parser's literals")
     default_iface = [d for f_, _a, d in fields["LCDDecl"] if f_ == "interface"]
     r.check(default_iface and default_iface[0][1] == "parallel", "ast/LCDDecl.interface-default", (mod("transpile/ast.py").rel, 1), f"default interface {default_iface}")
     # the I2C selection in the parser: i2c_addr present -> i2c
